@@ -135,6 +135,14 @@ def text_stage(ctx):
         ctx.stage("text-" + fmt, kind="G+R+V", files=n, records=stats["records"], rejected=rej)
         if stats.get("valid", 0) != stats["records"]:
             raise Infra("text stage %s: %d of %d records are valid files" % (fmt, stats.get("valid", 0), stats["records"]))
+        if fmt == "stla":
+            # the single-precision text format once more with coordinates written as long decimals just above / below
+            # the midpoint of two neighbouring float32 values: read as the float32 on the right side of the midpoint
+            rpath, stats = codec.run_faults(ctx, fmt, cpath, n, "valid-stla-mid", env_extra={"VERIF_COORDS": "mid"})
+            rej = codec.judge(ctx, "valid-stla-mid", rpath, stats["records"], {"valid"},
+                              lambda rec, clause: codec.fault_key(rec, clause) + ":float32-midpoints")
+            total += stats["records"]
+            ctx.stage("text-stla-midpoints", kind="G+R+V", files=n, records=stats["records"], rejected=rej)
     ctx.counts["distinct_nontrivial"] += total
 
 
